@@ -7,6 +7,8 @@ use std::sync::mpsc::{channel, Receiver};
 use std::time::Duration;
 
 use hcommon::problems::{OneMax, Sphere, Tsp};
+use mahf::problems::{LimitedVectorProblem, VectorProblem};
+use mahf::SingleObjective;
 use hcommon::*;
 use mahf::components::boundary::{CompleteOneTailedNormalCorrection, Mirror, Saturation, Toroidal};
 use mahf::components::initialization::{Empty, RandomBitstring, RandomPermutation, RandomSpread};
@@ -16,6 +18,29 @@ use rand::distributions::Distribution;
 use rand_distr::Normal;
 
 const WATCHDOG: Duration = Duration::from_millis(2000);
+
+/// A `LimitedVectorProblem` whose range may differ from dimension to dimension.
+struct Ranges { dom: Vec<(f64, f64)> }
+impl Problem for Ranges {
+    type Encoding = Vec<f64>;
+    type Objective = SingleObjective;
+    fn name(&self) -> &str { "ranges" }
+}
+impl VectorProblem for Ranges {
+    type Element = f64;
+    fn dimension(&self) -> usize { self.dom.len() }
+}
+impl LimitedVectorProblem for Ranges {
+    fn domain(&self) -> Vec<std::ops::Range<f64>> { self.dom.iter().map(|&(a, b)| a..b).collect() }
+}
+
+/// `(dom (a b) ..)`: one pair = the same range in each of `dim` dimensions, several = one per dimension.
+fn dom_of(x: &Sx, dim: usize) -> Vec<(f64, f64)> {
+    let (_, pairs) = x.head().unwrap();
+    let v: Vec<(f64, f64)> = pairs.iter().map(|p| { let f = fl(p); (f[0], f[1]) }).collect();
+    if v.len() == 1 { vec![v[0]; dim] } else { v }
+}
+fn dom_s(d: &[(f64, f64)]) -> String { tagged("dom", d.iter().map(|&(a, b)| list([fx(a), fx(b)]))) }
 
 fn fs(v: &[f64]) -> String {
     list(v.iter().map(|&x| fx(x)))
@@ -32,29 +57,29 @@ fn exec<P: Problem>(c: &dyn Component<P>, p: &P, s: &mut State<P>) -> Result<(),
     }
 }
 
-/// `(bnd OP KIND A B SEED (pop (x..)..))` → `((r1 (x..)..) (r2 (x..)..) (w s..))`:
-/// the population after one and after two applications, and (for `otn`) the absolute normal
-/// deviates a twin generator with the same seed produces — the script the model consumes.
+/// `(bnd OP KIND (dom (a b)..) SEED (pop (x..)..))` → `((r1 (x..)..) (r2 (x..)..) (w s..))`:
+/// the population after one and after two applications, and (for `otn`) the absolute STANDARD normal
+/// deviates a twin generator with the same seed produces — the script the model consumes
+/// (`Normal::new(0, σ).sample` is `0 + σ·z`, so the component's `|sample|` is `σ·|z|`).
 fn run_bnd(a: &[Sx]) -> String {
     let op = a[0].atom().unwrap();
-    let (lo, hi) = (a[2].float().unwrap(), a[3].float().unwrap());
-    let seed = a[4].nat().unwrap();
-    let (_, sols) = a[5].head().unwrap();
+    let seed = a[3].nat().unwrap();
+    let (_, sols) = a[4].head().unwrap();
     let sols: Vec<Vec<f64>> = sols.iter().map(fl).collect();
     let dim = sols.iter().map(|s| s.len()).max().unwrap_or(0);
-    let problem = Sphere::new(dim, lo, hi, 0.0);
-    let comp: Box<dyn Component<Sphere>> = match op {
+    let problem = Ranges { dom: dom_of(&a[2], dim) };
+    let comp: Box<dyn Component<Ranges>> = match op {
         "sat" => Saturation::new(),
         "tor" => Toroidal::new(),
         "mir" => Mirror::new(),
         "otn" => CompleteOneTailedNormalCorrection::new(),
         _ => panic!("unknown operator {op}"),
     };
-    let mut state: State<Sphere> = State::new();
-    state.insert(Populations::<Sphere>::new());
+    let mut state: State<Ranges> = State::new();
+    state.insert(Populations::<Ranges>::new());
     state.insert(Random::new(seed));
     state.populations_mut().push(sols.iter().map(|s| Individual::new_unevaluated(s.clone())).collect());
-    let snap = |state: &State<Sphere>| -> Vec<String> {
+    let snap = |state: &State<Ranges>| -> Vec<String> {
         state.populations().current().iter().map(|i| fs(i.solution())).collect()
     };
     if let Err(e) = exec(comp.as_ref(), &problem, &mut state) { return e; }
@@ -64,14 +89,14 @@ fn run_bnd(a: &[Sx]) -> String {
     let mut w = vec![];
     if op == "otn" {
         let mut twin = Random::new(seed);
-        let dist = Normal::new(0., (hi - lo) / 3.).unwrap();
+        let dist: Normal<f64> = Normal::new(0., 1.).unwrap();
         let k = 32 + 8 * sols.iter().map(|s| s.len()).sum::<usize>();
         w = (0..k).map(|_| fx(dist.sample(&mut twin).abs())).collect();
     }
     list([tagged("r1", r1), tagged("r2", r2), tagged("w", w)])
 }
 
-/// `(init KIND N DIM H SEED [A B | P])` → `(HEIGHT (below t|f) (pop (ind EVAL sol)..))`.
+/// `(init KIND N DIM H SEED [(dom ..) | P])` → `(HEIGHT (below t|f) (pop (ind EVAL sol)..))`.
 fn run_init(a: &[Sx]) -> String {
     let kind = a[0].atom().unwrap();
     let n = a[1].nat().unwrap() as u32;
@@ -102,9 +127,10 @@ fn run_init(a: &[Sx]) -> String {
             go(&p, Empty::new(), h, seed, vec![0.5; dim], |s| fs(s))
         }
         "spread" => {
-            let (lo, hi) = (a[5].float().unwrap(), a[6].float().unwrap());
-            let p = Sphere::new(dim, lo, hi, 0.0);
-            go(&p, RandomSpread::new(n), h, seed, vec![lo; dim], |s| fs(s))
+            let dom = dom_of(&a[5], dim);
+            let marker: Vec<f64> = dom.iter().map(|d| d.0).collect();
+            let p = Ranges { dom };
+            go(&p, RandomSpread::new(n), h, seed, marker, |s| fs(s))
         }
         "perm" => {
             let p = Tsp::new(vec![vec![1.0; dim]; dim]);
@@ -224,7 +250,16 @@ fn grid_points(a: f64, b: f64) -> Vec<f64> {
 fn huge_points() -> Vec<f64> { vec![1e17, -1e17, 1e300, -f64::MAX] }
 
 fn bnd_input(op: &str, kind: &str, a: f64, b: f64, seed: u64, sols: &[Vec<f64>]) -> String {
-    format!("(bnd {} {} {} {} {} {})", op, kind, fx(a), fx(b), seed, tagged("pop", sols.iter().map(|s| fs(s))))
+    bnd_input_dom(op, kind, &[(a, b)], seed, sols)
+}
+fn bnd_input_dom(op: &str, kind: &str, dom: &[(f64, f64)], seed: u64, sols: &[Vec<f64>]) -> String {
+    format!("(bnd {} {} {} {} {})", op, kind, dom_s(dom), seed, tagged("pop", sols.iter().map(|s| fs(s))))
+}
+/// Domains whose range differs from dimension to dimension.
+fn mixed_domains() -> Vec<Vec<(f64, f64)>> {
+    vec![vec![(0.0, 1.0), (10.0, 20.0), (-5.0, -4.0)],
+         vec![(-1.0, 1.0), (1e-3, 1e6), (0.0, 10.0), (-5.0, -2.0)],
+         vec![(100.0, 101.0), (-1.0, 1.0)]]
 }
 
 fn site_of(input: &Sx) -> String {
@@ -298,6 +333,25 @@ fn main() {
         let sols: Vec<Vec<f64>> = (0..n).map(|_| (0..dim).map(|_| coord(&mut rng)).collect()).collect();
         emit(&mut runner, bnd_input(op, if kind == "inside" { "random" } else { kind }, lo, hi, rng.next() % 100000, &sols));
     }
+    // ---- 2b. per-dimension DIFFERENT ranges: every coordinate is judged against its own range
+    let n_mixed = if a.thorough { 6000 } else { 900 };
+    for it in 0..n_mixed {
+        let doms = mixed_domains();
+        let dom = &doms[it % doms.len()];
+        let op = OPS[(it / doms.len()) % OPS.len()];
+        let kind = *rng.pick(&["bound", "grid", "random", "inside"]);
+        let n = rng.range(1, 3) as usize;
+        let sols: Vec<Vec<f64>> = (0..n).map(|_| dom.iter().map(|&(lo, hi)| {
+            let d = hi - lo;
+            match kind {
+                "bound" => *rng.pick(&bound_points(lo, hi)),
+                "grid" => { let g = grid_points(lo, hi); g[rng.below(14) as usize] }
+                "inside" => lo + rng.unit() * d,
+                _ => lo + (rng.unit() * 2.0 - 0.5) * d * 10f64.powi(rng.range(0, 3) as i32 - 1),
+            }
+        }).collect()).collect();
+        emit(&mut runner, bnd_input_dom(op, if kind == "inside" { "random" } else { kind }, dom, rng.next() % 100000, &sols));
+    }
     // ---- 3. huge finite coordinates (absorption: 2b − v = −v). Mirror is expected not to return.
     for (i, &(lo, hi)) in DOMAINS.iter().enumerate() {
         for op in OPS {
@@ -315,7 +369,12 @@ fn main() {
         let seed = a.seed * 7919 + s * 131 + n * 17 + dim;
         let h = (n + dim + s) % 3;
         for &(lo, hi) in &DOMAINS {
-            emit(&mut runner, format!("(init spread {} {} {} {} {} {})", n, dim, h, seed, fx(lo), fx(hi)));
+            emit(&mut runner, format!("(init spread {} {} {} {} {})", n, dim, h, seed, dom_s(&[(lo, hi)])));
+        }
+        for dom in mixed_domains() {
+            if dim >= 2 && (dim as usize) <= dom.len() {
+                emit(&mut runner, format!("(init spread {} {} {} {} {})", n, dim, h, seed, dom_s(&dom[..dim as usize])));
+            }
         }
         emit(&mut runner, format!("(init perm {} {} {} {})", n, dim, h, seed));
         for p in [0.0, 0.5, 1.0, 0.25] {
